@@ -547,3 +547,25 @@ const _: () = {
         }
     }
 };
+
+#[cfg(feature="ohkami_verif")]
+#[cfg(feature="__rt_native__")]
+#[doc(hidden)]
+impl Response {
+    /// returns whether the connection is upgraded
+    pub async fn __verif_send(self, conn: &mut (impl AsyncWrite + Unpin)) -> bool {
+        !self.send(conn).await.is_none()
+    }
+    pub fn __verif_declared_size(&self) -> usize {
+        self.status.line().len() + self.headers.size + self.content.as_bytes().map_or(0, <[u8]>::len)
+    }
+}
+
+#[cfg(feature="ohkami_verif")]
+#[cfg(feature="__rt__")]
+#[doc(hidden)]
+impl Response {
+    pub fn __verif_complete(&mut self) {
+        self.complete()
+    }
+}
